@@ -927,7 +927,64 @@ def molecular_bond_predicate(pts) -> tuple[str, str, dict] | None:
     return None
 
 
+def bond_sequence_predicate(seed: int) -> tuple[str, str, dict] | None:
+    """the bonding tests on ONE coordinates object asked again and again, as the walker's object is over a whole run:
+    each answer is about the geometry the object holds NOW — not about an earlier one (a neighbour table that is only
+    refreshed after a large move, an adjacency table that is never cleared)"""
+    import random
+    from topsearch.data.coordinates import AtomicCoordinates, MolecularCoordinates
+    rng = random.Random(seed)
+    # atomic: a compact cluster, one atom carried away, brought back, another one carried away, ...
+    n, cutoff = rng.choice([3, 4, 5, 7]), 1.5
+    base = np.array([[0.9 * i, 0.3 * (i % 2), 0.2 * (i % 3)] for i in range(n)], dtype=float)
+    c = AtomicCoordinates(["C"] * n, base.ravel().copy(), bond_cutoff=cutoff)
+    for step in range(rng.choice([3, 4, 6])):
+        pts = base + np.array([[rng.uniform(-0.05, 0.05) for _ in range(3)] for _ in range(n)])
+        if step % 2 == 1:
+            pts[rng.randrange(n)] += np.array([0.0, rng.choice([8.0, 30.0]), 5.0])
+        c.position = pts.ravel().copy()
+        got, want = bool(c.same_bonds()), connected_reference(pts, cutoff)
+        if got != want:
+            return ("bonding-test:same_bonds:sequence", f"{n} atoms, cutoff {cutoff}, call {step + 1} on the same coordinates "
+                    f"object: same_bonds() says {'connected' if got else 'dissociated'}, the cluster it holds now is "
+                    f"{'connected' if want else 'dissociated'}", {"bond_sequence_seed": seed})
+    # molecular: ethanol; two hydrogens approach until they count as bonded, then relax by LESS than the neighbour
+    # list's skin to a geometry that has the reference bonding again (and variants of that walk)
+    try:
+        labels, ref = ETHANOL[0], np.array(ETHANOL[1])
+        want_ref, _ = molecular_bonds_reference(labels, ref)
+        m = MolecularCoordinates(list(labels), ref.ravel().copy())
+        hs = rng.choice([(3, 4), (5, 6), (5, 7), (6, 7)])
+        mid = 0.5 * (ref[hs[0]] + ref[hs[1]])
+        u = (ref[hs[1]] - ref[hs[0]]) / np.linalg.norm(ref[hs[1]] - ref[hs[0]])
+        walk = [1.10, 1.40, 1.08, 1.45, 1.78] if rng.random() < 0.5 else [1.40, 1.10, 1.38, 1.12, 1.40]
+        for step, dist in enumerate(walk):
+            pts = ref.copy()
+            pts[hs[0]], pts[hs[1]] = mid - 0.5 * dist * u, mid + 0.5 * dist * u
+            pts += np.array([[rng.uniform(-0.01, 0.01) for _ in range(3)] for _ in range(len(pts))])
+            have, margin = molecular_bonds_reference(labels, pts)
+            if margin < 0.05:
+                continue
+            m.position = pts.ravel().copy()
+            got, want = bool(m.same_bonds()), have == want_ref
+            if got != want:
+                return ("bonding-test:same_bonds:molecular-sequence", f"ethanol, call {step + 1} on the same coordinates object "
+                        f"(hydrogens {hs} at {dist} A): same_bonds() says {'intact' if got else 'changed'}, the geometry it "
+                        f"holds now has {'the reference bonding' if want else 'a different bonding'}",
+                        {"bond_sequence_seed": seed})
+    except ImportError:
+        pass
+    return None
+
+
 def bond_oracle(ctx: Ctx) -> None:
+    for sd in range(ctx.seed * 100, ctx.seed * 100 + ctx.scale(12, 80)):
+        r = bond_sequence_predicate(sd)
+        ctx.stats.case({"stream": "predicate-bonding-test-sequence", "seed": sd}, True)
+        ctx.contract("same_bonds (same object, successive geometries)", r is None)
+        if r:
+            ctx.fail(*r)
+            break
     try:
         done = False
         for kind, pts in molecular_bond_cases(ctx.rng, ctx.scale(24, 200)):
@@ -1004,6 +1061,11 @@ def predicates(ctx: Ctx) -> None:
 
 
 def replay(ctx: Ctx, data: dict) -> bool:
+    if "bond_sequence_seed" in data:
+        r = bond_sequence_predicate(int(data["bond_sequence_seed"]))
+        if r:
+            print(f"  {r[0]}: {r[1]}")
+        return r is None
     if "bond_oracle" in data:
         r = bond_oracle_predicate(data["bond_oracle"]["pts"], data["bond_oracle"]["cutoff"])
         if r:
